@@ -49,21 +49,24 @@ def _attribution(db, chk, m):
                 I = Interp(db)
                 runs = [r for r in I.explore(ref, lambda I: {"self": self_obj, "e": e, "src_parent": T.P("src_parent")}) if r.raised is None]
                 tag = f"type={ty}, src {'start' if ss else 'end'} -> dest {'start' if ds else 'end'}"
-                if len(runs) != 1:
-                    chk.ob(rule, f"{tag}: single outcome", None, where, found=len(runs))
+                if not runs or len(runs) > 6:
+                    chk.ob(rule, f"{tag}: analysable", None, where, found=len(runs))
                     continue
-                mp = runs[0].env["self"].attrs["edge_to_event_map"]
-                if ty not in ("OPERATOR_KERNEL", "KERNEL_KERNEL_DELAY"):
-                    chk.ob(rule, f"{tag}: dependency / launch / sync edges are not attributed to an event", not mp, where, found={T.show(to_term(k)): T.show(to_term(v)) for k, v in mp.items()}, accepted="no entry")
-                    continue
-                want = T.P("src.ev_idx") if ty == "KERNEL_KERNEL_DELAY" else (T.P("src.ev_idx") if ss else (T.P("dst.ev_idx") if not ds else T.P("src_parent")))
+                want = None if ty not in ("OPERATOR_KERNEL", "KERNEL_KERNEL_DELAY") else (
+                    T.P("src.ev_idx") if ty == "KERNEL_KERNEL_DELAY" else (T.P("src.ev_idx") if ss else (T.P("dst.ev_idx") if not ds else T.P("src_parent"))))
                 key = ("tuple", (T.P("src.idx"), T.P("dst.idx")))
-                got = {to_term(k): to_term(v) for k, v in mp.items()}
-                val = got.get(key)
-                if isinstance(val, tuple) and val and val[0] == "cast":
-                    val = val[2]
-                chk.ob(rule, f"{tag}: attributed event", len(got) == 1 and val == want, where, found={T.show(k)[:60]: T.show(v)[:60] for k, v in got.items()}, accepted={"(src.idx, dest.idx)": T.show(want)},
-                       why="(S,S),(S,E) -> src event; (E,E) -> dest event; (E,S) -> the parent recorded for src; kernel-to-kernel delay -> the kernel preceding the gap")
+                for r in runs:      # every path (an extra condition on the attribution creates several) must give the table's value
+                    mp = r.env["self"].attrs["edge_to_event_map"]
+                    got = {to_term(k): to_term(v) for k, v in mp.items()}
+                    ptag = tag + (f" [when {T.show(r.cond())[:60]}]" if r.path else "")
+                    if want is None:
+                        chk.ob(rule, f"{ptag}: dependency / launch / sync edges are not attributed to an event", not got, where, found={T.show(k): T.show(v) for k, v in got.items()}, accepted="no entry")
+                        continue
+                    val = got.get(key)
+                    if isinstance(val, tuple) and val and val[0] == "cast":
+                        val = val[2]
+                    chk.ob(rule, f"{ptag}: attributed event", len(got) == 1 and val == want, where, found={T.show(k)[:60]: T.show(v)[:60] for k, v in got.items()}, accepted={"(src.idx, dest.idx)": T.show(want)},
+                           why="(S,S),(S,E) -> src event; (E,E) -> dest event; (E,S) -> the parent recorded for src; kernel-to-kernel delay -> the kernel preceding the gap; nothing else may influence the choice")
     chk.floor(rule, 20)
 
 
